@@ -4,6 +4,7 @@ import PyamgV.Proofs.C04Loop
 import PyamgV.Proofs.C04Check
 import PyamgV.Proofs.C04Limits
 import PyamgV.Proofs.C04Compose
+import PyamgV.Proofs.ExtC04Steps
 
 /-! # C04 — hierarchy structure: Galerkin coarse operators and coarsening limits
 
@@ -66,6 +67,33 @@ restate levelized_lists_long_enough := PyamgV.C04.levelized3_long_enough
 /-- the levelized option list is long enough for every level index the loop uses -/
 restate levelize_index_safe := PyamgV.C04.levelize_index_safe
 
+/-! ### the steps of the five constructors (extension E13): `Model/ExtC04Steps.lean` models the guards
+of `_extend_hierarchy` (all-C / all-F splitting, matrix filtered to a diagonal, `P.shape[1] >=
+P.shape[0]`); the driver runs them (`ext_c04_step`) and the loop built from them (`ext_c04_build` =
+`Coarsen.build` with `ExtC04.extend`) on the numbers traced inside every real step. -/
+/-- every proceeding step of every constructor returns strictly fewer rows -/
+restate step_rows_decrease := PyamgV.ExtC04.step_rows_decrease
+/-- ... and strictly fewer nodes (rows / blocksize, what the aggregation-type loops compare with
+`max_coarse`), except possibly a smoothed-aggregation step with fewer candidates than the block size -/
+restate step_nodes_decrease := PyamgV.ExtC04.step_nodes_decrease
+/-- that exception is real: such a step can proceed and keep the number of nodes -/
+restate sa_nodes_need_not_decrease := PyamgV.ExtC04.sa_nodes_need_not_decrease
+/-- a proceeding ruge_stuben step has `0 < #C < n`, the coarse level has `#C` rows -/
+restate rs_step_proceeds := PyamgV.ExtC04.stepRS_proceed
+/-- a proceeding air step: matrix not diagonal, `0 < #C < #block rows`, `#C * blocksize` coarse rows -/
+restate air_step_proceeds := PyamgV.ExtC04.stepAIR_proceed
+/-- the classical steps never append an empty level -/
+restate classical_step_nonempty := PyamgV.ExtC04.step_classical_nonempty
+/-- `sizes_decrease` with its hypothesis discharged: the loop instantiated with the modelled steps
+returns levels whose rows strictly decrease, whatever the numerical parts of the steps do -/
+restate sizes_decrease_unconditional := PyamgV.ExtC04.build_rows_decrease
+/-- the same in the measure the loop compares with `max_coarse` (candidates >= block size for sa) -/
+restate node_sizes_decrease := PyamgV.ExtC04.build_nodes_decrease
+/-- so the loop would end without `max_levels`: at most `rows + 1` levels, whatever the limits -/
+restate levels_bounded_by_rows := PyamgV.ExtC04.build_length_le
+/-- the measure that decreases may differ from the size the `while` condition looks at -/
+restate sizes_decrease_in_measure := PyamgV.ExtC04.build_measure_decreasing
+
 /-! non-vacuity -/
 -- sizes 100, 20, 3, 1 observed; max_levels 10, max_coarse 2: stops at size 1 because it is small enough
 example : runTrace 10 2 #[100, 20, 3, 1] = some ([100, 20, 3, 1], .smallEnough, 3) := by decide
@@ -82,5 +110,17 @@ example : LimitsSpec 10 2 (szAt #[100, 20, 3, 1]) 4 4 := by
 -- the checker accepts a true two-level Galerkin hierarchy and rejects a wrong coarse matrix
 example : checkHier .symm 0 [⟨exA, exP, exR⟩, ⟨⟨1, 1, #[⟨2, 0⟩]⟩, exE, exE⟩] = true := by decide +kernel
 example : checkHier .symm 0 [⟨exA, exP, exR⟩, ⟨⟨1, 1, #[⟨3, 0⟩]⟩, exE, exE⟩] = false := by decide +kernel
+
+-- the modelled steps: a splitting with 2 of 5 C-points proceeds to 2 rows, all-F and all-C stall
+example : PyamgV.ExtC04.step ⟨0, 5, 1⟩ (.rs [true, false, true, false, false]) = .proceed 2 1 := by decide
+example : PyamgV.ExtC04.step ⟨0, 3, 1⟩ (.rs [false, false, false]) = .stall := by decide
+example : PyamgV.ExtC04.step ⟨1, 6, 2⟩ (.air 12 [true, true, true]) = .stall := by decide
+example : PyamgV.ExtC04.step ⟨0, 6, 2⟩ (.air 6 []) = .stall := by decide
+example : PyamgV.ExtC04.step ⟨0, 12, 2⟩ (.sa 2 3) = .proceed 6 3 := by decide
+example : PyamgV.ExtC04.step ⟨0, 12, 2⟩ (.rn 6) = .stall := by decide
+example : PyamgV.ExtC04.step ⟨0, 12, 1⟩ (.pw 12 7) = .proceed 7 1 := by decide
+-- the loop on a table of observed step inputs: 12 -> 6 -> 2 rows, then small enough (coarsest first)
+example : PyamgV.ExtC04.buildC true (PyamgV.ExtC04.tableOracle #[.sa 6 1, .sa 2 1, .sa 1 1]) 10 2 10 ⟨0, 12, 1⟩
+    = [⟨2, 2, 1⟩, ⟨1, 6, 1⟩, ⟨0, 12, 1⟩] := by decide
 
 end PyamgV.Props.C04
